@@ -46,6 +46,8 @@ def make_world(contracts):
     w = World()
     models.install(w)
     for c in contracts:
+        if 'standalone' in c.notes:
+            continue        # verified on its own, never applied at call sites (callers execute the callee's body)
         base = c.id.split('[')[0]
         if '[' not in c.id:
             w.contracts[c.func] = c
